@@ -298,14 +298,11 @@ func reportTerm(r *Run, where, text string, at int, what string) {
 	if hi > len(text) {
 		hi = len(text)
 	}
-	kind := strings.SplitN(what, " ", 2)[0]
-	if strings.HasPrefix(what, "raw C1") || strings.HasPrefix(what, "C1") {
-		kind = "C1"
+	w := "item-text"
+	if strings.HasPrefix(where, "frame") {
+		w = "frame"
 	}
-	w := where
-	if i := strings.IndexAny(w, " ("); i > 0 {
-		w = w[:i]
-	}
+	kind := "control-character"
 	r.Violate("C01", "M-term", kind+"-in-"+w, fmt.Sprintf("%s contains %s at byte %d: %q", where, what, at, text[lo:hi]))
 }
 
